@@ -2,6 +2,7 @@ import RbV.Basic.Codec
 import RbV.Ref.SA
 import RbV.Model.Occ
 import RbV.Model.OccTable
+import RbV.Model.InvBWT
 /-! Driver for property C04 (BWT, less, Occ for all sampling rates, inverse BWT).
 
 `c04 t <text> k:<k> a:<alphabet> q:<query symbols> => <sa>;<bwt>;<less[c], c∈q>;<col(c)>/…;<inverse or ->`
@@ -9,7 +10,7 @@ import RbV.Model.OccTable
 * bwt      = `bwtRef text sa`                               (and the mirror `bwtModel`)
 * less[c]  = `lessRef bwt c`                                (and the mirror `lessModel bwt (max a + 2)`)
 * col(c)   = `occCol bwt c`  (row r ↦ `occRef bwt r c`)      (and the mirror `occGet (occTable bwt k alpha m)[c] bwt k r c`)
-* inverse  = text, for single-sentinel texts
+* inverse  = text, for single-sentinel texts            (and the mirror `invertModel bwt (max bwt + 2)`)
 A disagreement between a mirror model and the observation where the specification agrees with the observation is
 reported as tag `drift` (cannot happen as long as the refinement theorems hold), never as a violation. -/
 namespace RbV.Drv.C04
@@ -86,6 +87,8 @@ def verdict (toks : List String) (out : String) : String :=
             let single := t.count (sentinelOf t) = 1
             let invOk := if single then invS = toHex t else invS = "-"
             if !invOk then "diff inv " ++ (if single then toHex t else "-") else
+            -- mirror of `invert_bwt` (alphabet = symbols of the BWT, less array of size max + 2)
+            let driftI := single && toHex (InvBWT.invertModel bwt (bwt.foldl max 0 + 2)) ≠ invS
             let nt := n ≥ 4 && (dedupTags (bwt.map toString)).length ≥ 2
             "ok" ++ (if nt then " nt" else "")
               ++ (if k > 64 then " k>64" else " k<=64")
@@ -95,7 +98,7 @@ def verdict (toks : List String) (out : String) : String :=
               ++ (if single then " inv" else " multi-sent")
               ++ (if !a.contains (sentinelOf t) then " sent-not-in-alphabet" else "")
               ++ String.join (branches.map (" " ++ ·))
-              ++ (if driftB || driftL || driftO then " drift" else "")
+              ++ (if driftB || driftL || driftO || driftI then " drift" else "")
         | _, _, _, _ => "bad-op output"
       | _ =>
         if out.startsWith "PANIC" || out.startsWith "HANG" || out.startsWith "CRASH" then "reject " ++ out
